@@ -6,7 +6,7 @@ from fractions import Fraction
 import numpy as np
 
 from ..common import Ctx, Tokens, close, driver_batch, f2b, fvec
-from . import c04_ext, c04_r3
+from . import c04_ext, c04_r3, c04_r4
 
 LEVEL = "proof"
 LEVEL_TEXT = (
@@ -84,7 +84,12 @@ RULE = (
     "LinearFinite onto a strict sub-interval, either orientation -> any finite-domain class -> a half-line class or an InverseRTransform), "
     "every stage against the model; the GRID handed to transform_1d_grid with points of dtype int64 / int32 / bool / float32, weights of those dtypes, "
     "read-only / strided / negative-stride arrays, for every transform class plain and through InverseRTransform (integer-valued parameters, "
-    "LinearFinite of odd width), compared with the model at the float64 values."
+    "LinearFinite of odd width), compared with the model at the float64 values. Round 4 (c04_r4.py): every class that takes a rule with an infinite "
+    "domain end (Identity / LinearInfinite / Exp / Power / Hyperbolic; InverseRTransform of Becke / Handy / Knowles / MultiExp, trim on and off, and of "
+    "Identity) x every half-infinite rule and hand-built grids on (lo, inf) x (rmin, rmax) below 1 / up to 1 / straddling 1 / from 1 / above 1 / "
+    "(0.9, 1.1) / (1e-3, 1e3) x b in {0.5, 1, 4, left open}; half-infinite rules with 21 ... 81 nodes (nodes up to 1e300); one- and two-node grids through "
+    "every class and the size guard of Hyperbolic at b (n - 1) = {0.5, 1/1.01, 1, 1.01, 2}: all against the model; the oracle asserts on every one of them, "
+    "without a reference map, that an accepted grid has a nan-free ordered domain containing every new node (the two listed nan-domain findings under their keys)."
 )
 TRUSTED_BASE = [
     "Lean 4.33 kernel; Mathlib; axioms propext, Classical.choice, Quot.sound only (audited per theorem)",
@@ -131,6 +136,54 @@ INF_RULES = {
     "LogExpSinh": lambda n: n % 2 == 1, "ExpExp": lambda n: n % 2 == 1, "SingleExp": lambda n: n % 2 == 1,
     "SingleArcSinhExp": lambda n: n % 2 == 1,
 }
+
+
+# ----------------------------------------------------------------------------
+# round 4: crash-proof stages.  Every independent part of `corr` / `oracle` / `oracle_at` runs inside `with part(ctx, name, stage)`:
+# an exception ends that part only.  Raised inside the library (innermost frame under src/grid) -> a failure `<key>:raises` with the
+# traceback (the implementation raised something the harness does not expect inside the envelope); raised by the harness / driver ->
+# kept, the remaining parts still run, the first one is re-raised at the end of the stage (`reraise_pending`).
+# ----------------------------------------------------------------------------
+_PENDING = {"corr": [], "oracle": [], "oracle_at": []}
+
+
+def _library_frame(tb):
+    import traceback
+    frames = traceback.extract_tb(tb)
+    if frames and "/src/grid/" in frames[-1].filename.replace("\\", "/") and "/tests/" not in frames[-1].filename:
+        f = frames[-1]
+        return f"{f.filename.split('/src/grid/')[-1]}:{f.lineno} in {f.name}"
+    return None
+
+
+class part:
+    def __init__(self, ctx, name, stage="oracle"):
+        self.ctx, self.name, self.stage = ctx, name, stage
+
+    def __enter__(self):
+        return self
+
+    def __exit__(self, et, ev, tb):
+        import traceback
+        if ev is None or not isinstance(ev, Exception):
+            return False
+        where = _library_frame(tb)
+        text = "".join(traceback.format_exception(et, ev, tb))[-2500:]
+        if where is not None:
+            self.ctx.fail("corr" if self.stage == "corr" else "oracle", f"rtransform.transform_1d_grid:{self.name.split(':')[0]}:raises",
+                          f"part '{self.name}' of the {self.stage}: the library raised {et.__name__}: {ev} at {where}", witness=text)
+        else:
+            _PENDING[self.stage].append(ev)
+            self.ctx.info(f"part '{self.name}' of the {self.stage} raised {et.__name__}: {ev} (harness side; the other parts still ran)")
+        self.ctx.tagc(f"{self.stage}:part-raised")
+        return True
+
+
+def reraise_pending(stage):
+    if _PENDING[stage]:
+        e = _PENDING[stage][0]
+        _PENDING[stage].clear()
+        raise e
 
 
 def rt():
@@ -229,6 +282,8 @@ def _impl(tf, g, keyword=False):
         return "zero-division-error", None
     except TypeError:
         return "type-error", None
+    except Exception as e:      # noqa: BLE001 - an unexpected kind of exception is a disagreement with the model, not a crash of the harness
+        return type(e).__name__, None
     return "ok", h
 
 
@@ -273,7 +328,7 @@ def _conditioning(tf, g, base=None, eps=2.220446049250313e-16):
             if base is not None:
                 _, dd2, _ = spread(lambda y: y, lambda y: 1.0 / (base.deriv(y) * np.ones_like(y)), base.inverse(r))
                 dd = np.maximum(dd, dd2)
-        except (ValueError, ZeroDivisionError, TypeError):
+        except Exception:      # noqa: BLE001 - whatever the methods raise here: no slack, the comparison itself will tell
             return None
         dp = np.where(4 * dd < 0.25 * d0, 4 * dd * np.abs(g.weights), np.inf)
     return 4 * tp, np.where(np.isfinite(dp), dp, np.inf)
@@ -448,7 +503,7 @@ def _c04_check(script, rt, OneDGrid, HP, hp_call, mpmath, slack, max_nodes):
         before = (g.points.copy(), g.weights.copy(), g.domain)
         try:
             h, tag = T.transform_1d_grid(g), "ok"
-        except (ValueError, ZeroDivisionError, TypeError) as e:
+        except Exception as e:      # any kind: reported as a rejection that has no reason
             h, tag = None, type(e).__name__
         if not (g.points.dtype == before[0].dtype and g.weights.dtype == before[1].dtype and g.domain == before[2]
                 and np.array_equal(g.points, before[0], equal_nan=True) and np.array_equal(g.weights, before[1], equal_nan=True)):
@@ -1066,10 +1121,13 @@ def _oracle_scripts(ctx: Ctx, scripts, label="r2", max_nodes=48):
     R, G = rt(), OneDGrid()
     new = 0
     for cat, script in scripts:
-        try:
-            bad = c04_check_script(script, R, G, hp.HP, hp.hp_call, hp.mpmath, max_nodes=max_nodes)
-        except ValueError:
-            ctx.tagc(f"oracle:{label}:inadmissible-script")
+        bad = None
+        with part(ctx, f"{label}-script:{cat}"):
+            try:
+                bad = c04_check_script(script, R, G, hp.HP, hp.hp_call, hp.mpmath, max_nodes=max_nodes)
+            except ValueError:
+                ctx.tagc(f"oracle:{label}:inadmissible-script")
+        if bad is None:
             continue
         ctx.tagc(f"oracle:{label}:{cat.split(':')[0]}", len(script["calls"]))
         for kind, ci, msg in bad:
@@ -1301,79 +1359,83 @@ def corr(ctx: Ctx):
 
     ncases = ctx.n(1500, 20000)
     for k in range(ncases):
-        u = rng.random()
-        matching = u < 0.8
-        fin_rule = rng.random() < 0.65
-        rname = rng.choice(sorted(FINITE_RULES if fin_rule else INF_RULES))
-        ok = (FINITE_RULES if fin_rule else INF_RULES)[rname]
-        n = pick_n(ok, rng, hi_n)
-        g = make_rule(rname, n)
-        fin_tf = fin_rule if matching else not fin_rule
-        cls = rng.choice(FINITE_TF if fin_tf else INF_TF)
-        ps, trim = gen_params(cls, rng, g.size)
-        try:
-            tf = construct(cls, ps, trim)
-        except ValueError:
-            continue
-        desc = [rname, n, cls, ps, bool(trim)]
-        v = rng.random()
-        if v < 0.12 and g.size >= 3:         # a slice of the rule keeps the domain
-            a = rng.randrange(0, g.size - 1)
-            b = rng.randrange(a + 1, g.size + 1)
-            g = g[a:b]
-            desc.append(f"slice {a}:{b}")
-        elif v < 0.27 and fin_rule:          # hand-built grid on a sub-interval / sticking out / without domain
-            w = rng.random()
-            lo, hi = sorted([round(rng.uniform(-1, 1), 3), round(rng.uniform(-1, 1), 3)])
-            if lo == hi:
-                hi = lo + 0.25
-            eps = rng.choice([0.0, 5e-8, 9.9e-8, 1.01e-7, 2e-7, 1e-3])
-            if w < 0.25:
-                dom = (-1.0 - eps, 1.0) if rng.random() < 0.5 else (-1.0, 1.0 + eps)
-                lo, hi = -1.0, 1.0
-            elif w < 0.35:
-                dom = None
-            else:
-                dom = (lo, hi)
-            m = rng.randrange(1, 6)
-            pts = np.sort(np.array([rng.uniform(lo, hi) for _ in range(m)]))
-            if dom is not None and rng.random() < 0.3:   # a point outside the grid's own domain by about the slack, either side
-                if rng.random() < 0.5:
-                    pts[0] = dom[0] - rng.choice([5e-8, 9.9e-8, 1.01e-7])
-                else:
-                    pts[-1] = dom[1] + rng.choice([5e-8, 9.9e-8, 1.01e-7])
-            wts = np.array([rng.uniform(0.05, 1.0) for _ in range(m)])
-            if rng.random() < 0.5:                       # the API does not ask for ascending nodes or positive weights
-                rng.shuffle(pts)
-                wts = wts * np.array([rng.choice([1.0, 1.0, -1.0, 0.0]) for _ in range(m)])
+        with part(ctx, "build-case", "corr"):
+            u = rng.random()
+            matching = u < 0.8
+            fin_rule = rng.random() < 0.65
+            rname = rng.choice(sorted(FINITE_RULES if fin_rule else INF_RULES))
+            ok = (FINITE_RULES if fin_rule else INF_RULES)[rname]
+            n = pick_n(ok, rng, hi_n)
+            g = make_rule(rname, n)
+            fin_tf = fin_rule if matching else not fin_rule
+            cls = rng.choice(FINITE_TF if fin_tf else INF_TF)
+            ps, trim = gen_params(cls, rng, g.size)
             try:
-                g = G(pts, wts, dom)
+                tf = construct(cls, ps, trim)
             except ValueError:
                 continue
-            desc = ["OneDGrid", [float(x) for x in pts], dom, cls, ps, bool(trim)]
-        add(desc, False, cls, ps, trim, tf, g, g.size >= 2 and (cls != "IdentityRTransform" or not matching),
-            f"{'finite' if fin_rule else 'half-infinite'}-rule:{cls}" + ("" if matching else ":mismatch"))
-        # the inverse transformation applied to the grid just produced (round trip)
-        if matching and rng.random() < 0.3:
-            tag, h = _impl(tf, g)
-            if tag == "ok" and np.all(np.isfinite(h.points)) and np.all(np.isfinite(h.weights)):
-                itf = rt().InverseRTransform(tf)
-                add(desc + ["inverse"], True, cls, ps, trim, itf, h, h.size >= 2, f"inverse:{cls}", base=tf)
-    answers = driver_batch([c[3] for c in cases])
-    for (desc, tf, g, line, nontrivial, tag, base), ans in zip(cases, answers):
-        itag, h = _impl(tf, g)
-        bad = _compare(itag, h, ans, cond=_conditioning(tf, g, base) if itag == "ok" else None)
-        ctx.count(desc, nontrivial=nontrivial or itag != "ok", tag=tag + (":" + itag if itag != "ok" else ""))
-        if bad:
-            ctx.fail("corr", f"transform_1d_grid:{desc[-3] if desc[0] == 'OneDGrid' else desc[2]}",
-                     f"transform_1d_grid {desc}: {bad}",
-                     witness={"case": desc, "points": g.points, "weights": g.weights, "domain": _dom(g.domain),
-                              "tf_domain": [float(x) for x in tf.domain], "disagreement": bad})
+            desc = [rname, n, cls, ps, bool(trim)]
+            v = rng.random()
+            if v < 0.12 and g.size >= 3:         # a slice of the rule keeps the domain
+                a = rng.randrange(0, g.size - 1)
+                b = rng.randrange(a + 1, g.size + 1)
+                g = g[a:b]
+                desc.append(f"slice {a}:{b}")
+            elif v < 0.27 and fin_rule:          # hand-built grid on a sub-interval / sticking out / without domain
+                w = rng.random()
+                lo, hi = sorted([round(rng.uniform(-1, 1), 3), round(rng.uniform(-1, 1), 3)])
+                if lo == hi:
+                    hi = lo + 0.25
+                eps = rng.choice([0.0, 5e-8, 9.9e-8, 1.01e-7, 2e-7, 1e-3])
+                if w < 0.25:
+                    dom = (-1.0 - eps, 1.0) if rng.random() < 0.5 else (-1.0, 1.0 + eps)
+                    lo, hi = -1.0, 1.0
+                elif w < 0.35:
+                    dom = None
+                else:
+                    dom = (lo, hi)
+                m = rng.randrange(1, 6)
+                pts = np.sort(np.array([rng.uniform(lo, hi) for _ in range(m)]))
+                if dom is not None and rng.random() < 0.3:   # a point outside the grid's own domain by about the slack, either side
+                    if rng.random() < 0.5:
+                        pts[0] = dom[0] - rng.choice([5e-8, 9.9e-8, 1.01e-7])
+                    else:
+                        pts[-1] = dom[1] + rng.choice([5e-8, 9.9e-8, 1.01e-7])
+                wts = np.array([rng.uniform(0.05, 1.0) for _ in range(m)])
+                if rng.random() < 0.5:                       # the API does not ask for ascending nodes or positive weights
+                    rng.shuffle(pts)
+                    wts = wts * np.array([rng.choice([1.0, 1.0, -1.0, 0.0]) for _ in range(m)])
+                try:
+                    g = G(pts, wts, dom)
+                except ValueError:
+                    continue
+                desc = ["OneDGrid", [float(x) for x in pts], dom, cls, ps, bool(trim)]
+            add(desc, False, cls, ps, trim, tf, g, g.size >= 2 and (cls != "IdentityRTransform" or not matching),
+                f"{'finite' if fin_rule else 'half-infinite'}-rule:{cls}" + ("" if matching else ":mismatch"))
+            # the inverse transformation applied to the grid just produced (round trip)
+            if matching and rng.random() < 0.3:
+                tag, h = _impl(tf, g)
+                if tag == "ok" and np.all(np.isfinite(h.points)) and np.all(np.isfinite(h.weights)):
+                    itf = rt().InverseRTransform(tf)
+                    add(desc + ["inverse"], True, cls, ps, trim, itf, h, h.size >= 2, f"inverse:{cls}", base=tf)
+    with part(ctx, "rules-x-transforms", "corr"):
+        answers = driver_batch([c[3] for c in cases])
+        for (desc, tf, g, line, nontrivial, tag, base), ans in zip(cases, answers):
+            itag, h = _impl(tf, g)
+            bad = _compare(itag, h, ans, cond=_conditioning(tf, g, base) if itag == "ok" else None)
+            ctx.count(desc, nontrivial=nontrivial or itag != "ok", tag=tag + (":" + itag if itag != "ok" else ""))
+            if bad:
+                ctx.fail("corr", f"transform_1d_grid:{desc[-3] if desc[0] == 'OneDGrid' else desc[2]}",
+                         f"transform_1d_grid {desc}: {bad}",
+                         witness={"case": desc, "points": g.points, "weights": g.weights, "domain": _dom(g.domain),
+                                  "tf_domain": [float(x) for x in tf.domain], "disagreement": bad})
 
     # round 2: shared objects and sequences of calls, dtype / container kinds, any order of the nodes, every class
     # wrapped in InverseRTransform, extreme parameters
-    _corr_scripts(ctx, _r2_scripts(ctx, rng, "corr"))
-    _corr_not_a_grid(ctx)
+    with part(ctx, "r2-scripts", "corr"):
+        _corr_scripts(ctx, _r2_scripts(ctx, rng, "corr"))
+    with part(ctx, "not-a-grid", "corr"):
+        _corr_not_a_grid(ctx)
 
     ctx.tagc("corr:values-compared", _STATS["compared"])
     ctx.tagc("corr:values-conditioning-limited(skipped)", _STATS["limited"])
@@ -1403,7 +1465,8 @@ def corr(ctx: Ctx):
         ctor.append((pts, wts, dom))
     lines = [("C04.onedgrid " + (f"1 {f2b(d[0])} {f2b(d[1])} " if d is not None else f"0 {f2b(0.0)} {f2b(0.0)} ")
               + f"{fvec(p)} {fvec(w)}") for p, w, d in ctor]
-    for (p, w, d), ans in zip(ctor, driver_batch(lines)):
+    with part(ctx, "constructor", "corr"):
+      for (p, w, d), ans in zip(ctor, driver_batch(lines)):
         try:
             h = G(np.array(p, dtype=float), np.array(w, dtype=float), d)
             itag = "ok"
@@ -1487,187 +1550,195 @@ def oracle(ctx: Ctx, budget: str):
     reps = 3 if large else 1
     pair_scripts = []
     for rule, cls, fin in pairs:
-        ok = (FINITE_RULES if fin else INF_RULES)[rule]
-        for _ in range(reps):
-            n = pick_n(ok, rng, 30)
-            g = make_rule(rule, n)
-            ps, trim = gen_params(cls, rng, g.size)
-            if cls == "HyperbolicRTransform" and ps[1] * (g.size - 1) >= 1:
-                ps[1] = round(0.5 / max(g.size - 1, 1), 6)
-            tf = construct(cls, ps, trim)
-            before = (g.points.copy(), g.weights.copy(), g.domain)
-            tag, h = _impl(tf, g)
-            case = {"rule": rule, "npoints": n, "transform": cls, "params": ps, "trim_inf": bool(trim)}
-            pair_scripts.append((f"pairs:{rule}:{cls}", {"tfs": [_spec_tf(cls, ps, trim if cls in HAS_TRIM else False)],
-                                                         "grids": [_spec_grid(before[0], before[1], before[2])], "calls": [[0, 0]]}))
-            if not _unchanged(g, before):
-                ctx.fail("oracle", f"rtransform.transform_1d_grid:{cls}:input-modified",
-                         f"{rule}({n}) through {cls}{tuple(ps)}: the caller's grid was changed by the call (weights {before[1][:3].tolist()} -> "
-                         f"{g.weights[:3].tolist()})", witness=case, snippet=_snippet_script(pair_scripts[-1][1], "input-modified"))
-            if tag != "ok":
-                if cls == "HyperbolicRTransform" or not fin:
-                    # nodes beyond the pole 1/b, or images overflowing: rejected by the constructor, not a wrong grid
-                    ctx.tagc("oracle:rejected-by-constructor")
+        with part(ctx, f"pairs:{rule}:{cls}"):
+            ok = (FINITE_RULES if fin else INF_RULES)[rule]
+            for _ in range(reps):
+                n = pick_n(ok, rng, 30)
+                g = make_rule(rule, n)
+                ps, trim = gen_params(cls, rng, g.size)
+                if cls == "HyperbolicRTransform" and ps[1] * (g.size - 1) >= 1:
+                    ps[1] = round(0.5 / max(g.size - 1, 1), 6)
+                tf = construct(cls, ps, trim)
+                before = (g.points.copy(), g.weights.copy(), g.domain)
+                tag, h = _impl(tf, g)
+                case = {"rule": rule, "npoints": n, "transform": cls, "params": ps, "trim_inf": bool(trim)}
+                pair_scripts.append((f"pairs:{rule}:{cls}", {"tfs": [_spec_tf(cls, ps, trim if cls in HAS_TRIM else False)],
+                                                             "grids": [_spec_grid(before[0], before[1], before[2])], "calls": [[0, 0]]}))
+                if not _unchanged(g, before):
+                    ctx.fail("oracle", f"rtransform.transform_1d_grid:{cls}:input-modified",
+                             f"{rule}({n}) through {cls}{tuple(ps)}: the caller's grid was changed by the call (weights {before[1][:3].tolist()} -> "
+                             f"{g.weights[:3].tolist()})", witness=case, snippet=_snippet_script(pair_scripts[-1][1], "input-modified"))
+                if tag != "ok":
+                    if cls == "HyperbolicRTransform" or not fin:
+                        # nodes beyond the pole 1/b, or images overflowing: rejected by the constructor, not a wrong grid
+                        ctx.tagc("oracle:rejected-by-constructor")
+                        continue
+                    if _trim_overflow(ctx, rule, n, cls, ps, trim, tf, g, tag):
+                        continue
+                    ctx.fail("oracle", f"rtransform.transform_1d_grid:{cls}:rejected",
+                             f"{rule}({n}) through {cls}{tuple(ps)}: domains match but the call raised {tag}", witness=case,
+                             snippet=_snippet_script(pair_scripts[-1][1], "rejected"))
                     continue
-                if _trim_overflow(ctx, rule, n, cls, ps, trim, tf, g, tag):
-                    continue
-                ctx.fail("oracle", f"rtransform.transform_1d_grid:{cls}:rejected",
-                         f"{rule}({n}) through {cls}{tuple(ps)}: domains match but the call raised {tag}", witness=case,
-                         snippet=_snippet_script(pair_scripts[-1][1], "rejected"))
-                continue
-            dec = _decreasing(tf, float(g.domain[0]), float(g.domain[1]))
-            lo, hi = float(h.domain[0]), float(h.domain[1])
-            # ordered domain, nodes inside
-            fin_pts = h.points[np.isfinite(h.points)]
-            if not (lo <= hi) or not (np.all(fin_pts >= lo - 1e-12 * max(1, abs(lo))) and np.all(fin_pts <= hi + 1e-12 * max(1.0, abs(hi)))):
-                key = HYP_KEY if (cls == "HyperbolicRTransform" and hi != hi) else f"rtransform.transform_1d_grid:{cls}:domain"
-                ctx.fail("oracle", key,
-                         f"{rule}({n}) through {cls}{tuple(ps)}: new domain ({lo}, {hi}) is not an ordered interval containing "
-                         f"the new nodes [{float(h.points.min())}, {float(h.points.max())}]", witness=case,
-                         snippet=SNIPPET_NAN.format(rule=rule, n=n, ps=ps) if cls == "HyperbolicRTransform" else None)
-            # the domain is the image of the old ends
-            try:
-                img = sorted(float(x) for x in tf.transform(np.array([float(g.domain[0]), float(g.domain[1])])))
-                if not (img[1] != img[1] and hi != hi) and not (_same(img[0], lo) and _same(img[1], hi)):
-                    ctx.fail("oracle", f"rtransform.transform_1d_grid:{cls}:domain-image",
-                             f"{rule}({n}) through {cls}{tuple(ps)}: new domain ({lo}, {hi}) is not the ordered image {img} of the old ends",
-                             witness=case)
-            except ValueError:
-                pass
-            # sign of the weights
-            pos = g.weights > 0
-            finite_w = np.isfinite(h.weights)
-            if np.any(h.weights[pos & finite_w] < 0):
-                i = int(np.nonzero(pos & finite_w & (h.weights < 0))[0][0])
-                what = (f"{rule}({n}) through {cls}{tuple(ps)}: weight {float(g.weights[i])!r} at node {float(g.points[i])!r} became "
-                        f"{float(h.weights[i])!r} (the map is {'decreasing' if dec else 'increasing'}; transform_1d_grid multiplies by the signed derivative)")
-                if dec:
-                    report_sign(rule, n, cls, ps, trim, False, what, case)
-                else:
-                    ctx.fail("oracle", f"rtransform.transform_1d_grid:{cls}:weights", what, witness=case)
-            # identity Σ f(p_i) w'_i = Σ w_i f(r(x_i)) |r'(x_i)| (30 digits on the right)
-            keep = np.isfinite(h.points) & np.isfinite(h.weights)
-            if np.any(keep):
-                rx = tf.transform(g.points)
-                dx = tf.deriv(g.points) * np.ones_like(g.points, dtype=float)
-                name, f_np, f_mp = _mp_integrands()[0]
-                lhs = float(np.sum((f_np(h.points) * h.weights)[keep]))
-                rhs = sum(mp.mpf(float(g.weights[i])) * f_mp(mp.mpf(float(rx[i]))) * abs(mp.mpf(float(dx[i])))
-                          for i in range(g.size) if keep[i])
-                scale = float(sum(abs(mp.mpf(float(g.weights[i])) * f_mp(mp.mpf(float(rx[i]))) * mp.mpf(float(dx[i])))
-                                  for i in range(g.size) if keep[i]))
-                if abs(lhs - float(rhs)) > 1e-10 * max(scale, 1e-300):
-                    what = (f"{rule}({n}) through {cls}{tuple(ps)}: sum of {name} over the new grid = {lhs!r}, the old rule applied to "
-                            f"f(r(x))|r'(x)| = {float(rhs)!r}")
-                    # the listed finding is the *sign*: under a decreasing map the sum is exactly the negative; anything
-                    # else (nodes and weights no longer paired, another Jacobian) is a different failure
-                    if dec and abs(lhs + float(rhs)) <= 1e-10 * max(scale, 1e-300):
+                dec = _decreasing(tf, float(g.domain[0]), float(g.domain[1]))
+                lo, hi = float(h.domain[0]), float(h.domain[1])
+                # ordered domain, nodes inside
+                fin_pts = h.points[np.isfinite(h.points)]
+                if not (lo <= hi) or not (np.all(fin_pts >= lo - 1e-12 * max(1, abs(lo))) and np.all(fin_pts <= hi + 1e-12 * max(1.0, abs(hi)))):
+                    key = HYP_KEY if (cls == "HyperbolicRTransform" and hi != hi) else f"rtransform.transform_1d_grid:{cls}:domain"
+                    ctx.fail("oracle", key,
+                             f"{rule}({n}) through {cls}{tuple(ps)}: new domain ({lo}, {hi}) is not an ordered interval containing "
+                             f"the new nodes [{float(h.points.min())}, {float(h.points.max())}]", witness=case,
+                             snippet=SNIPPET_NAN.format(rule=rule, n=n, ps=ps) if cls == "HyperbolicRTransform" else None)
+                # the domain is the image of the old ends
+                try:
+                    img = sorted(float(x) for x in tf.transform(np.array([float(g.domain[0]), float(g.domain[1])])))
+                    if not (img[1] != img[1] and hi != hi) and not (_same(img[0], lo) and _same(img[1], hi)):
+                        ctx.fail("oracle", f"rtransform.transform_1d_grid:{cls}:domain-image",
+                                 f"{rule}({n}) through {cls}{tuple(ps)}: new domain ({lo}, {hi}) is not the ordered image {img} of the old ends",
+                                 witness=case)
+                except ValueError:
+                    pass
+                # sign of the weights
+                pos = g.weights > 0
+                finite_w = np.isfinite(h.weights)
+                if np.any(h.weights[pos & finite_w] < 0):
+                    i = int(np.nonzero(pos & finite_w & (h.weights < 0))[0][0])
+                    what = (f"{rule}({n}) through {cls}{tuple(ps)}: weight {float(g.weights[i])!r} at node {float(g.points[i])!r} became "
+                            f"{float(h.weights[i])!r} (the map is {'decreasing' if dec else 'increasing'}; transform_1d_grid multiplies by the signed derivative)")
+                    if dec:
                         report_sign(rule, n, cls, ps, trim, False, what, case)
                     else:
-                        ctx.fail("oracle", f"rtransform.transform_1d_grid:{cls}:identity", what, witness=case)
-            ctx.tagc("oracle:pairs")
+                        ctx.fail("oracle", f"rtransform.transform_1d_grid:{cls}:weights", what, witness=case)
+                # identity Σ f(p_i) w'_i = Σ w_i f(r(x_i)) |r'(x_i)| (30 digits on the right)
+                keep = np.isfinite(h.points) & np.isfinite(h.weights)
+                if np.any(keep):
+                    rx = tf.transform(g.points)
+                    dx = tf.deriv(g.points) * np.ones_like(g.points, dtype=float)
+                    name, f_np, f_mp = _mp_integrands()[0]
+                    lhs = float(np.sum((f_np(h.points) * h.weights)[keep]))
+                    rhs = sum(mp.mpf(float(g.weights[i])) * f_mp(mp.mpf(float(rx[i]))) * abs(mp.mpf(float(dx[i])))
+                              for i in range(g.size) if keep[i])
+                    scale = float(sum(abs(mp.mpf(float(g.weights[i])) * f_mp(mp.mpf(float(rx[i]))) * mp.mpf(float(dx[i])))
+                                      for i in range(g.size) if keep[i]))
+                    if abs(lhs - float(rhs)) > 1e-10 * max(scale, 1e-300):
+                        what = (f"{rule}({n}) through {cls}{tuple(ps)}: sum of {name} over the new grid = {lhs!r}, the old rule applied to "
+                                f"f(r(x))|r'(x)| = {float(rhs)!r}")
+                        # the listed finding is the *sign*: under a decreasing map the sum is exactly the negative; anything
+                        # else (nodes and weights no longer paired, another Jacobian) is a different failure
+                        if dec and abs(lhs + float(rhs)) <= 1e-10 * max(scale, 1e-300):
+                            report_sign(rule, n, cls, ps, trim, False, what, case)
+                        else:
+                            ctx.fail("oracle", f"rtransform.transform_1d_grid:{cls}:identity", what, witness=case)
+                ctx.tagc("oracle:pairs")
 
     # ---- 1b. the same pairs judged node by node (independent Jacobian: mpmath.diff of the 40-digit run of the map), then the
     #          round-2 scripts: shared objects and sequences of calls, dtype / container kinds, any node order, negative and
     #          zero weights, every class wrapped in InverseRTransform, exponents over [0.5, 8], nodes on the ends, slack
-    _oracle_scripts(ctx, pair_scripts, label="pairs", max_nodes=8)
-    _oracle_scripts(ctx, _r2_scripts(ctx, rng, "oracle"))
-    _oracle_slack(ctx, rng)
-    _oracle_candidates(ctx)
+    with part(ctx, "pairs-nodewise"):
+        _oracle_scripts(ctx, pair_scripts, label="pairs", max_nodes=8)
+    with part(ctx, "r2-scripts"):
+        _oracle_scripts(ctx, _r2_scripts(ctx, rng, "oracle"))
+    with part(ctx, "constructor-slack"):
+        _oracle_slack(ctx, rng)
+    with part(ctx, "candidates"):
+        _oracle_candidates(ctx)
     mp.mp.dps = 30
 
     # ---- 2. integrals of positive integrands against mpmath.quad (accurate rules only)
-    quad_cases = [("GaussLegendre", 40), ("GaussLegendre", 60), ("ClenshawCurtis", 61), ("FejerFirst", 60)]
-    if large:
-        quad_cases += [("GaussLegendre", 80), ("GaussChebyshevType2", 120), ("TrefethenCC", 61)]
-    quad_m = [3, 2.5, 4, 1.5, 2, 3.5, 1]       # an integer >= 3 and a fractional exponent in every run (first two rules)
-    quad_off = rng.randrange(len(quad_m))
-    for qi, (rule, n) in enumerate(quad_cases):
-        g = make_rule(rule, n)
-        for cls in FINITE_TF:
-            for rep in range(2 if large else 1):
-                rmin = rng.choice([0.0, 0.1, 0.5])
-                Rp = rng.choice([1.0, 1.5, 2.0])
-                m = quad_m[qi] if qi < 2 and rep == 0 else quad_m[(quad_off + qi + 3 * rep) % len(quad_m)]
-                ps = {"BeckeRTransform": [rmin, Rp], "MultiExpRTransform": [rmin, Rp],
-                      "LinearFiniteRTransform": [rmin, rmin + rng.choice([2.0, 5.0, 9.5])],
-                      "KnowlesRTransform": [rmin, Rp, m], "HandyRTransform": [rmin, Rp, m],
-                      "HandyModRTransform": [rmin, rmin + 2.0 ** m - 1 + rng.choice([3.0, 8.0]), m]}[cls]
-                if cls == "MultiExpRTransform" and rule == "GaussLegendre" and n == 40 and rep == 0:
-                    ps = [0.0, 1.5]          # the witness recorded in KNOWN_FINDINGS
-                tf = construct(cls, ps, True)
-                tag, h = _impl(tf, g)
-                case = {"rule": rule, "npoints": n, "transform": cls, "params": ps}
-                if tag != "ok":
-                    if not _trim_overflow(ctx, rule, n, cls, ps, True, tf, g, tag):
-                        ctx.fail("oracle", f"rtransform.transform_1d_grid:{cls}:rejected", f"{rule}({n}) through {cls}{tuple(ps)} raised {tag}", witness=case)
-                    continue
-                lo, hi = float(h.domain[0]), float(h.domain[1])
-                keep = np.isfinite(h.points) & np.isfinite(h.weights) & (np.abs(h.weights) < 1e15)
-                for name, f_np, f_mp in _mp_integrands():
-                    val = float(np.sum((f_np(h.points) * h.weights)[keep]))
-                    ref = float(mp.quad(f_mp, [mp.mpf(lo), mp.inf if hi >= 1e16 else mp.mpf(hi)]))
-                    ctx.tagc("oracle:quad")
-                    # exp(-r): these rules integrate it to better than 1e-3 under every map above (measured: <= 7e-4),
-                    # a wrong Jacobian shows; the slowly decaying integrands only converge to a few percent
-                    qtol = 2e-3 if name == "exp(-r)" else 0.1
-                    if not (val > 0) or abs(val - ref) > qtol * ref:
-                        dec = _decreasing(tf, -1.0, 1.0)
-                        what = (f"{rule}({n}) through {cls}{tuple(ps)}: integral of {name} over [{lo}, {hi}] = {val!r}, "
-                                f"mpmath.quad gives {ref!r}" + (" (decreasing map, signed Jacobian in transform_1d_grid)" if dec else
-                                                               f" (relative deviation {abs(val - ref) / ref:.1e}, tolerance {qtol:g})"))
-                        if dec and abs(val + ref) <= qtol * ref:
-                            report_sign(rule, n, cls, ps, True, False, what, dict(case, integrand=name, value=val, reference=ref))
-                        else:
-                            ctx.fail("oracle", f"rtransform.transform_1d_grid:{cls}:quad", what, witness=dict(case, integrand=name, value=val, reference=ref),
-                                     snippet=SNIPPET_QUAD.format(rule=rule, n=n, cls=cls, ps=ps, name=name, tol=qtol))
+    with part(ctx, "quad"):
+        quad_cases = [("GaussLegendre", 40), ("GaussLegendre", 60), ("ClenshawCurtis", 61), ("FejerFirst", 60)]
+        if large:
+            quad_cases += [("GaussLegendre", 80), ("GaussChebyshevType2", 120), ("TrefethenCC", 61)]
+        quad_m = [3, 2.5, 4, 1.5, 2, 3.5, 1]       # an integer >= 3 and a fractional exponent in every run (first two rules)
+        quad_off = rng.randrange(len(quad_m))
+        for qi, (rule, n) in enumerate(quad_cases):
+            g = make_rule(rule, n)
+            for cls in FINITE_TF:
+                for rep in range(2 if large else 1):
+                    rmin = rng.choice([0.0, 0.1, 0.5])
+                    Rp = rng.choice([1.0, 1.5, 2.0])
+                    m = quad_m[qi] if qi < 2 and rep == 0 else quad_m[(quad_off + qi + 3 * rep) % len(quad_m)]
+                    ps = {"BeckeRTransform": [rmin, Rp], "MultiExpRTransform": [rmin, Rp],
+                          "LinearFiniteRTransform": [rmin, rmin + rng.choice([2.0, 5.0, 9.5])],
+                          "KnowlesRTransform": [rmin, Rp, m], "HandyRTransform": [rmin, Rp, m],
+                          "HandyModRTransform": [rmin, rmin + 2.0 ** m - 1 + rng.choice([3.0, 8.0]), m]}[cls]
+                    if cls == "MultiExpRTransform" and rule == "GaussLegendre" and n == 40 and rep == 0:
+                        ps = [0.0, 1.5]          # the witness recorded in KNOWN_FINDINGS
+                    tf = construct(cls, ps, True)
+                    tag, h = _impl(tf, g)
+                    case = {"rule": rule, "npoints": n, "transform": cls, "params": ps}
+                    if tag != "ok":
+                        if not _trim_overflow(ctx, rule, n, cls, ps, True, tf, g, tag):
+                            ctx.fail("oracle", f"rtransform.transform_1d_grid:{cls}:rejected", f"{rule}({n}) through {cls}{tuple(ps)} raised {tag}", witness=case)
+                        continue
+                    lo, hi = float(h.domain[0]), float(h.domain[1])
+                    keep = np.isfinite(h.points) & np.isfinite(h.weights) & (np.abs(h.weights) < 1e15)
+                    for name, f_np, f_mp in _mp_integrands():
+                        val = float(np.sum((f_np(h.points) * h.weights)[keep]))
+                        ref = float(mp.quad(f_mp, [mp.mpf(lo), mp.inf if hi >= 1e16 else mp.mpf(hi)]))
+                        ctx.tagc("oracle:quad")
+                        # exp(-r): these rules integrate it to better than 1e-3 under every map above (measured: <= 7e-4),
+                        # a wrong Jacobian shows; the slowly decaying integrands only converge to a few percent
+                        qtol = 2e-3 if name == "exp(-r)" else 0.1
+                        if not (val > 0) or abs(val - ref) > qtol * ref:
+                            dec = _decreasing(tf, -1.0, 1.0)
+                            what = (f"{rule}({n}) through {cls}{tuple(ps)}: integral of {name} over [{lo}, {hi}] = {val!r}, "
+                                    f"mpmath.quad gives {ref!r}" + (" (decreasing map, signed Jacobian in transform_1d_grid)" if dec else
+                                                                   f" (relative deviation {abs(val - ref) / ref:.1e}, tolerance {qtol:g})"))
+                            if dec and abs(val + ref) <= qtol * ref:
+                                report_sign(rule, n, cls, ps, True, False, what, dict(case, integrand=name, value=val, reference=ref))
+                            else:
+                                ctx.fail("oracle", f"rtransform.transform_1d_grid:{cls}:quad", what, witness=dict(case, integrand=name, value=val, reference=ref),
+                                         snippet=SNIPPET_QUAD.format(rule=rule, n=n, cls=cls, ps=ps, name=name, tol=qtol))
 
     # ---- 3. Gauss-Legendre through LinearFinite: exact on monomials up to degree 2n-1 (exact rationals)
-    for n in ([2, 3, 4, 5, 7, 10] if not large else list(range(2, 16))):
-        g = make_rule("GaussLegendre", n)
-        for rep in range(2):
-            a = rng.choice([0.0, -1.0, 0.5, round(rng.uniform(-2, 2), 2)])
-            b = a + rng.choice([1.0, 2.0, round(rng.uniform(0.5, 4.0), 2)])
-            tf = construct("LinearFiniteRTransform", [a, b], False)
-            h = tf.transform_1d_grid(g)
-            fa, fb = Fraction(a), Fraction(b)
-            for k in range(0, 2 * n):
-                exact = (fb ** (k + 1) - fa ** (k + 1)) / (k + 1)
-                terms = [Fraction(float(p)) ** k * Fraction(float(w)) for p, w in zip(h.points, h.weights)]
-                got = sum(terms)
-                scale = sum(abs(t) for t in terms)
-                ctx.tagc("oracle:gl-linear-monomial")
-                if abs(got - exact) > Fraction(1, 10 ** 11) * max(scale, Fraction(1, 10 ** 30)):
-                    ctx.fail("oracle", "rtransform.transform_1d_grid:LinearFiniteRTransform:exactness",
-                             f"GaussLegendre({n}) mapped to [{a}, {b}]: integral of r^{k} = {float(got)!r}, exact {float(exact)!r}",
-                             witness={"npoints": n, "a": a, "b": b, "degree": k, "got": float(got), "exact": str(exact)})
-                    break
-            # node containment and domain
-            if not (float(h.domain[0]) == a and float(h.domain[1]) == b and np.all(h.points >= a) and np.all(h.points <= b)):
-                ctx.fail("oracle", "rtransform.transform_1d_grid:LinearFiniteRTransform:domain",
-                         f"GaussLegendre({n}) mapped to [{a}, {b}]: domain {h.domain}, nodes in [{h.points.min()}, {h.points.max()}]")
-    # degree 2n is not integrated exactly (the degree bound of the theorem is sharp; guards against a vacuous check)
-    g = make_rule("GaussLegendre", 3)
-    h = construct("LinearFiniteRTransform", [0.0, 2.0], False).transform_1d_grid(g)
-    got = sum(Fraction(float(p)) ** 6 * Fraction(float(w)) for p, w in zip(h.points, h.weights))
-    if abs(got - Fraction(2 ** 7, 7)) < Fraction(1, 10 ** 6):
-        ctx.info("GaussLegendre(3) on [0,2] integrates r^6 exactly?! (oracle sanity)")
+    with part(ctx, "gl-linear-exactness"):
+        for n in ([2, 3, 4, 5, 7, 10] if not large else list(range(2, 16))):
+            g = make_rule("GaussLegendre", n)
+            for rep in range(2):
+                a = rng.choice([0.0, -1.0, 0.5, round(rng.uniform(-2, 2), 2)])
+                b = a + rng.choice([1.0, 2.0, round(rng.uniform(0.5, 4.0), 2)])
+                tf = construct("LinearFiniteRTransform", [a, b], False)
+                h = tf.transform_1d_grid(g)
+                fa, fb = Fraction(a), Fraction(b)
+                for k in range(0, 2 * n):
+                    exact = (fb ** (k + 1) - fa ** (k + 1)) / (k + 1)
+                    terms = [Fraction(float(p)) ** k * Fraction(float(w)) for p, w in zip(h.points, h.weights)]
+                    got = sum(terms)
+                    scale = sum(abs(t) for t in terms)
+                    ctx.tagc("oracle:gl-linear-monomial")
+                    if abs(got - exact) > Fraction(1, 10 ** 11) * max(scale, Fraction(1, 10 ** 30)):
+                        ctx.fail("oracle", "rtransform.transform_1d_grid:LinearFiniteRTransform:exactness",
+                                 f"GaussLegendre({n}) mapped to [{a}, {b}]: integral of r^{k} = {float(got)!r}, exact {float(exact)!r}",
+                                 witness={"npoints": n, "a": a, "b": b, "degree": k, "got": float(got), "exact": str(exact)})
+                        break
+                # node containment and domain
+                if not (float(h.domain[0]) == a and float(h.domain[1]) == b and np.all(h.points >= a) and np.all(h.points <= b)):
+                    ctx.fail("oracle", "rtransform.transform_1d_grid:LinearFiniteRTransform:domain",
+                             f"GaussLegendre({n}) mapped to [{a}, {b}]: domain {h.domain}, nodes in [{h.points.min()}, {h.points.max()}]")
+        # degree 2n is not integrated exactly (the degree bound of the theorem is sharp; guards against a vacuous check)
+        g = make_rule("GaussLegendre", 3)
+        h = construct("LinearFiniteRTransform", [0.0, 2.0], False).transform_1d_grid(g)
+        got = sum(Fraction(float(p)) ** 6 * Fraction(float(w)) for p, w in zip(h.points, h.weights))
+        if abs(got - Fraction(2 ** 7, 7)) < Fraction(1, 10 ** 6):
+            ctx.info("GaussLegendre(3) on [0,2] integrates r^6 exactly?! (oracle sanity)")
 
     # ---- 4. mismatching domains must be rejected
-    for rule, cls in [(r, t) for r in sorted(FINITE_RULES)[:6] for t in INF_TF] + [(r, t) for r in sorted(INF_RULES) for t in FINITE_TF[:3]]:
-        fin = rule in FINITE_RULES
-        n = pick_n((FINITE_RULES if fin else INF_RULES)[rule], rng, 12)
-        g = make_rule(rule, n)
-        ps, trim = gen_params(cls, rng, g.size)
-        if cls == "HyperbolicRTransform":
-            ps[1] = round(0.5 / max(g.size - 1, 1), 6)
-        tf = construct(cls, ps, trim)
-        tag, h = _impl(tf, g)
-        ctx.tagc("oracle:mismatch")
-        if tag != "value-error":
-            ctx.fail("oracle", f"rtransform.transform_1d_grid:{cls}:guard",
-                     f"{rule}({n}) with domain {g.domain} through {cls} with domain {tf.domain}: not rejected ({tag})",
-                     witness={"rule": rule, "npoints": n, "transform": cls, "params": ps})
+    with part(ctx, "mismatch"):
+        for rule, cls in [(r, t) for r in sorted(FINITE_RULES)[:6] for t in INF_TF] + [(r, t) for r in sorted(INF_RULES) for t in FINITE_TF[:3]]:
+            fin = rule in FINITE_RULES
+            n = pick_n((FINITE_RULES if fin else INF_RULES)[rule], rng, 12)
+            g = make_rule(rule, n)
+            ps, trim = gen_params(cls, rng, g.size)
+            if cls == "HyperbolicRTransform":
+                ps[1] = round(0.5 / max(g.size - 1, 1), 6)
+            tf = construct(cls, ps, trim)
+            tag, h = _impl(tf, g)
+            ctx.tagc("oracle:mismatch")
+            if tag != "value-error":
+                ctx.fail("oracle", f"rtransform.transform_1d_grid:{cls}:guard",
+                         f"{rule}({n}) with domain {g.domain} through {cls} with domain {tf.domain}: not rejected ({tag})",
+                         witness={"rule": rule, "npoints": n, "transform": cls, "params": ps})
 
 
 # ----------------------------------------------------------------------------
@@ -1680,17 +1751,34 @@ _oracle_at_main = oracle_at
 
 
 def corr(ctx: Ctx):  # noqa: F811
-    _corr_main(ctx)
-    c04_ext.corr_ext(ctx)
-    c04_r3.corr_r3(ctx)
+    with part(ctx, "main", "corr"):
+        _corr_main(ctx)
+    with part(ctx, "xreal-ties", "corr"):
+        c04_ext.corr_ext(ctx)
+    with part(ctx, "round3", "corr"):
+        c04_r3.corr_r3(ctx)
+    with part(ctx, "round4", "corr"):
+        c04_r4.corr_r4(ctx)
+    reraise_pending("corr")
 
 
 def oracle(ctx: Ctx, budget: str):  # noqa: F811
-    _oracle_main(ctx, budget)
-    c04_ext.oracle_ext(ctx, budget)
-    c04_r3.oracle_r3(ctx, budget)
+    with part(ctx, "main"):
+        _oracle_main(ctx, budget)
+    with part(ctx, "xreal-ties"):
+        c04_ext.oracle_ext(ctx, budget)
+    with part(ctx, "round3"):
+        c04_r3.oracle_r3(ctx, budget)
+    with part(ctx, "round4"):
+        c04_r4.oracle_r4(ctx, budget)
+    reraise_pending("oracle")
 
 
 def oracle_at(ctx: Ctx, failure):  # noqa: F811
-    _oracle_at_main(ctx, failure)
-    c04_r3.oracle_at_r3(ctx, failure)
+    with part(ctx, "main", "oracle_at"):
+        _oracle_at_main(ctx, failure)
+    with part(ctx, "round3", "oracle_at"):
+        c04_r3.oracle_at_r3(ctx, failure)
+    with part(ctx, "round4", "oracle_at"):
+        c04_r4.oracle_at_r4(ctx, failure)
+    reraise_pending("oracle_at")
